@@ -47,14 +47,16 @@ def main():
     suffix = sys.argv[1] if len(sys.argv) > 1 else ""
     ids = sys.argv[2:] or sorted(NEEDS)
     os.makedirs("/tmp/seed", exist_ok=True)
-    tmpl = open(os.path.join(VERIF, "tools", "seed_prompt.tmpl")).read()
+    # suffix starting with "r": behaviour-preserving refactorings (the checks must stay silent)
+    tname = "seed_prompt_refactor.tmpl" if suffix.startswith("r") else "seed_prompt.tmpl"
+    tmpl = open(os.path.join(VERIF, "tools", tname)).read()
     props = {json.loads(l)["id"]: json.loads(l) for l in open(os.path.join(VERIF, "properties.jsonl"))}
     for pid in ids:
         wt = "/tmp/seed/%s%s" % (pid, suffix)
         if not os.path.exists(wt):
             subprocess.run(["git", "-C", "/repo", "worktree", "add", "--detach", "-q", wt, "HEAD"], check=True)
         json.dump(props[pid], open(wt + ".property.json", "w"), indent=1)
-        tr = tried(pid) if suffix else []
+        tr = tried(pid) if suffix and not suffix.startswith("r") else []
         ttxt = ""
         if tr:
             ttxt = " Earlier contributors already tried the following, so pick a DIFFERENT clause of the property and a different mechanism / place in the code: " + "; ".join(tr) + "."
